@@ -18,6 +18,20 @@ pub fn spawn_unipayload_handler(
     cluster_id: ClusterId,
     tx_changes: CorroSender<(ChangeV1, ChangeSource)>,
 ) {
+    spawn_unipayload_handler_with(tripwire, conn, move || cluster_id, tx_changes)
+}
+
+/// Same as [`spawn_unipayload_handler`], but the cluster id payloads are
+/// checked against is read for every payload, so that a connection accepted
+/// before the node's cluster id changed filters with the current one.
+pub fn spawn_unipayload_handler_with<F>(
+    tripwire: &Tripwire,
+    conn: &quinn::Connection,
+    current_cluster_id: F,
+    tx_changes: CorroSender<(ChangeV1, ChangeSource)>,
+) where
+    F: Fn() -> ClusterId + Clone + Send + Sync + 'static,
+{
     tokio::spawn({
         let conn = conn.clone();
         let mut tripwire = tripwire.clone();
@@ -46,6 +60,7 @@ pub fn spawn_unipayload_handler(
 
                 tokio::spawn({
                     let tx_changes = tx_changes.clone();
+                    let current_cluster_id = current_cluster_id.clone();
                     async move {
                         let mut framed = FramedRead::new(
                             rx,
@@ -72,7 +87,7 @@ pub fn spawn_unipayload_handler(
                                                         )),
                                                     cluster_id: payload_cluster_id,
                                                 } => {
-                                                    if cluster_id != payload_cluster_id {
+                                                    if current_cluster_id() != payload_cluster_id {
                                                         continue;
                                                     }
                                                     changes.push((change, ChangeSource::Broadcast));
